@@ -33,7 +33,7 @@ fn fail(c: &Case, rule: &str, detail: String) -> Failure {
 /// does the result of a successful send equal the acknowledgement the peer sent?
 fn value_matches(v5: bool, res: &SendRes, ack: &P5) -> bool {
     match (res, ack) {
-        (SendRes::PubAck(got), P5::PubAck(sent)) => !v5 || got == sent,
+        (SendRes::PubAck(got), P5::PubAck(sent)) => (!v5 && (got.pid == 0 || got.pid == sent.pid)) || got == sent,
         (SendRes::Receipt(_, got), P5::PubRec(sent)) => !v5 || got == sent,
         (SendRes::SubAck(got), P5::SubAck(sent)) => {
             if v5 {
@@ -268,8 +268,8 @@ pub async fn run_case(c: Case) -> Result<CaseInfo, Failure> {
 }
 
 fn op_strategy() -> BoxedStrategy<Op> {
-    let kind = prop_oneof![4 => Just(SendKind::Qos1), 3 => Just(SendKind::Qos2), 2 => Just(SendKind::Subscribe), 2 => Just(SendKind::Unsubscribe)];
-    let kind2 = prop_oneof![2 => Just(SendKind::Qos1), 1 => Just(SendKind::Qos0), 1 => Just(SendKind::Subscribe)];
+    let kind = prop_oneof![4 => Just(SendKind::Qos1), 3 => Just(SendKind::Qos2), 2 => Just(SendKind::Subscribe), 2 => Just(SendKind::Unsubscribe), 2 => Just(SendKind::NoBlock)];
+    let kind2 = prop_oneof![2 => Just(SendKind::Qos1), 1 => Just(SendKind::Qos0), 1 => Just(SendKind::Subscribe), 1 => Just(SendKind::NoBlock)];
     prop_oneof![
         8 => (kind, prop_oneof![5 => Just(0u8), 2 => 1u8..4]).prop_map(|(kind, own_id)| Op::Send { kind, again: false, own_id }),
         1 => (0u8..2, 1u8..3).prop_map(|(qos, bad)| Op::StreamStart { qos, declared: 3, bad }),
